@@ -623,6 +623,13 @@ pub fn explore_scalars(rep: &mut Report, quick: bool) {
             // one extra level from the states with an unusual representation: a zero coefficient that carries the
             // approx flag (left by a cancellation); these are few, and the flag must survive the next operation
             frontier.retain(|(s, _, _)| s.raw_parts().iter().any(|c| c.2 == 0 && c.0 & 2 != 0));
+            total.add("flagged_zero_states_found", frontier.len() as u64);
+            // bounded: the thorough tier finds millions of them (absorbed additions at extreme exponents)
+            let cap_extra = if quick { usize::MAX } else { 150_000 };
+            if frontier.len() > cap_extra {
+                frontier.truncate(cap_extra);
+                capped = true;
+            }
             total.add("flagged_zero_states_extended", frontier.len() as u64);
         }
         // expand the frontier in parallel, then merge (deterministic order)
@@ -645,7 +652,7 @@ pub fn explore_scalars(rep: &mut Report, quick: bool) {
                                 judge_scalar(&mut st, &s2, &m2, &p2);
                                 // on the last regular level only the states that get the extra level keep their payload
                                 // (model and history); the others are only counted (16 M payloads exceeded the memory cap)
-                                let keep = level + 1 < depth || s2.raw_parts().iter().any(|c| c.2 == 0 && c.0 & 2 != 0);
+                                let keep = level + 1 < depth || (level + 1 == depth && s2.raw_parts().iter().any(|c| c.2 == 0 && c.0 & 2 != 0));
                                 out.push((skey(&s2), if keep { Some((s2, m2, p2)) } else { None }));
                             }
                         }
